@@ -207,10 +207,27 @@ def valid_u_escape(bs):
     return c <= 0x10FFFF and not (0xD800 <= c <= 0xDFFF)
 
 
+def backslash_eol_before(exp_items, text, offset):
+    """is there, at or before byte `offset`, a string / character literal that ends its line with a backslash?"""
+    for raw in exp_items:
+        if len(raw) > 11 and raw[8] != 0:
+            lbe = raw[13]
+            if lbe <= offset + 1 and text[lbe - 1:lbe] == b"\\" and text[lbe:lbe + 1] in (b"\n", b"\r") \
+                    and text[raw[12]:raw[12] + 1] in (b"'", b'"'):
+                return True
+    return False
+
+
 def classify(d, g, text, exp_items):
     """d: a discrepancy from compare().  Returns (signature, resync) where resync tells whether both
     lists are still aligned after this item (the deviation replaces one item by one item)."""
     e, o = d.get("e"), d.get("o")
+    if g == "delta":
+        where = o[1] if o is not None else (e.bs if e is not None else len(text))
+        if e is not None:
+            where = max(where, e.bs)
+        if backslash_eol_before(exp_items, text, where):
+            return "delta backslash-eol: E162 instead of E161 and the line break is swallowed", False
     if g == "delta" and e is not None and o is not None and o[0] == "Error":
         at = o[1]
         if e.code == 161 and o[5] == 162 and text[at:at + 1] == b"\\" and text[at + 1:at + 2] in (b"\n", b"\r"):
